@@ -159,6 +159,37 @@ class C06(Prop):
                     return 'delivered message exceeds the limit by more than a chunk'
         return None
 
+    def extra_checks(self, ctx):
+        """framing a message (any bytes without a newline) and feeding the framed bytes back - whole, byte by byte, two
+        messages back to back - returns the message: the frame is the message followed by one newline, nothing else"""
+        from harness.core import Failure
+        from aiorpcx.framing import NewlineFramer
+        rng = ctx['rng']
+        out, n = [], 0
+        msgs = [b'', b'a', b'{"id": 1}', b'{"id": 1} ', b'abc\t', b'data\r', b' ', b'\t\r \x0b\x0c', b' x ', b'\x00', b'\xff\xfe', b'x' * 300 + b'  ']
+        msgs += [bytes(rng.choice([32, 9, 13, 11, 12, 97, 0, 255, 123]) for _ in range(rng.randrange(0, 12))) for _ in range(40)]
+        for m in msgs:
+            f = NewlineFramer()
+            framed = f.frame(m)
+            n += 1
+            cl = None
+            if bytes(framed) != m + b'\n':
+                cl = 'the framed bytes are not the message followed by one newline'
+            else:
+                for chunks in ([framed], [bytes([b]) for b in framed], [framed + f.frame(b'second')]):
+                    res = asyncio.run(_drive(0, chunks, [0]))
+                    want = [['msg', list(m)]] + ([['msg', list(b'second')]] if len(chunks) == 1 and chunks[0] != framed else [])
+                    if res != want:
+                        cl = 'framing a message and feeding the bytes back does not return the message'
+                        break
+            if cl:
+                out.append(Failure({'kind': 'frame_roundtrip', 'message': list(m)}, {'framed': list(framed)}, cl))
+                if len(out) >= 2:
+                    break
+        ctx['extra_evals'] += n
+        ctx['notes'].append(f'frame round trips (messages ending in whitespace, empty, binary): {n}')
+        return out
+
     def nontrivial(self, case, obs):
         return len(case['chunks']) > 1 and any(10 in c for c in case['chunks'])
 
